@@ -62,7 +62,10 @@ RULE_ADDED = (
               'Round 16: blocks and brothers that are RLP strings of 16..21 bytes. '
               ' '
               'Round 17: key ids with elements of more digits than the interpreter converts (en'
-              'try-point baits). ')
+              'try-point baits). '
+              ' '
+              'Round 18: every hexadecimal field of every well-formed request once with a 0x an'
+              'd once with a 0X prefix, each on a manager of its own. ')
 RULE = RULE + " " + RULE_ADDED.strip()
 ASSUMPTIONS = [
     "simulated device keeps to its protocol (firmware-like chunking, well-formed answers)",
@@ -566,6 +569,41 @@ def run_shard(spec, acc):
                 feed("base:%s:%s" % (name_, "v1" if v1_ else plat5), v1_,
                      json.dumps(req_).encode() + b"\n",
                      {"kind": "req", "v1": v1_, "request": req_})
+        # (0b) the same requests with one hexadecimal field written with a 0x / 0X prefix
+        # (as nodes print such values): whatever each layer makes of the prefix, the request
+        # gets its answer
+        def prefixed(v, path=()):
+            if isinstance(v, dict):
+                for k_, x_ in v.items():
+                    yield from prefixed(x_, path + (k_,))
+            elif isinstance(v, list):
+                for i_, x_ in enumerate(v[:2]):
+                    yield from prefixed(x_, path + (i_,))
+            elif isinstance(v, str) and len(v) >= 8 and len(v) % 2 == 0 and \
+                    all(c_ in "0123456789abcdefABCDEF" for c_ in v):
+                yield path
+
+        def with_prefix(req_, path, pre):
+            import copy as _copy
+            r_ = _copy.deepcopy(req_)
+            node = r_
+            for k_ in path[:-1]:
+                node = node[k_]
+            node[path[-1]] = pre + node[path[-1]]
+            return r_
+        for v1_ in (False, True):
+            for name_, req_ in sorted(c02.bases(random.Random(spec["seed"] + 31), v1_).items()):
+                for path in list(prefixed(req_))[:6]:
+                    for pre_ in ("0x", "0X"):
+                        acc.count("requests_with_a_0x_prefixed_hex_field")
+                        r_ = with_prefix(req_, path, pre_)
+                        # (on a manager of its own: nothing an earlier line left behind - a
+                        # pending repair, a device in another app - stands in the way)
+                        if v1_ in st:
+                            st.pop(v1_)[0].__exit__(None, None, None)
+                        feed("%s:%s:%s" % (pre_, name_, ".".join(map(str, path))), v1_,
+                             json.dumps(r_).encode() + b"\n",
+                             {"kind": "req", "v1": v1_, "request": r_})
         # (1) raw
         for cls, line in raw_lines(rng, 130 if quick else 2000, maxlen):
             acc.count("raw_lines")
